@@ -909,7 +909,7 @@ fn grammar_case(c: &Value) -> Value {
         RData::read(sub, RecordType::from(code)).map(|_| ()).map_err(|e| e.to_string())
     })));
     let t4 = thread_cpu_us();
-    json!({"ev": "g", "case": c["id"], "kind": c["kind"], "type": c["type"], "code": code, "tags": c["tags"], "ctx": c["ctx"],
+    json!({"ev": "g", "case": c["id"], "kind": c["kind"], "type": c["type"], "code": code, "tags": c["tags"], "ctx": c["ctx"], "tlv": c["tlv"],
         "len": bytes.len(), "rdlen": b.rdlen, "recEnd": b.rec_end,
         "msg": msg, "req": {"out": q_out, "err": q_err},
         "rec": {"out": r_out, "err": r_err, "next": r_val.map(|v| v.0 as i64).unwrap_or(-1), "limits": r_val.map(|v| v.1).unwrap_or(true)},
@@ -976,7 +976,7 @@ fn grammar_mode(trace: &mut dyn io::Write, out: &mut dyn io::Write) {
             None => {
                 hangs += 1;
                 let b = build_case(&c);
-                json!({"ev": "g", "case": c["id"], "kind": c["kind"], "type": c["type"], "code": c["code"], "tags": c["tags"], "ctx": c["ctx"],
+                json!({"ev": "g", "case": c["id"], "kind": c["kind"], "type": c["type"], "code": c["code"], "tags": c["tags"], "ctx": c["ctx"], "tlv": c["tlv"],
                     "len": b.msg.len(), "rdlen": b.rdlen, "recEnd": b.rec_end,
                     "msg": {"out": "HANG", "err": "", "fix": "n/a", "rdataSame": "n/a", "limits": true, "present": "n/a"},
                     "req": {"out": "HANG", "err": ""}, "rec": {"out": "HANG", "err": "", "next": -1, "limits": true},
